@@ -2,6 +2,8 @@ import Resvg.Props.C19
 #print axioms Resvg.Props.C19.act_preTranslate
 #print axioms Resvg.Props.C19.C19_export_is_shifted_full_rendering
 #print axioms Resvg.Props.C19.C19_old_export_misplaces
+#print axioms Resvg.Props.C19.C19_box_maps_onto_canvas
+#print axioms Resvg.Props.C19.C19_nothing_iff_zero_sized
 #print axioms Resvg.Props.C19.findById_node
 #print axioms Resvg.Props.C19.findById_list
 #print axioms Resvg.Props.C19.C19_node_by_id_iff_carried
